@@ -176,6 +176,14 @@ def c01a(ck, prog):
     drops = [bi for bi, st, agg in decision.field_stores(h, "content") if agg is not None and agg[1].get("variant") == "None" and head_only(bi)]
     hdr_mut = [c for c in h.calls() if head_only(c.bb) and re.search(r"Response::drop_content$|headers::Headers::(set|insert|remove)", c.callee or "")]
     ok = len(drops) == 1 and not hdr_mut
+    if ok:
+        # ... for every HEAD response: once the HEAD test has answered yes, no return is reached around the drop
+        head_sw = [fa.sw_bb for fa in guards.facts_at(h, prog, drops[0]) if head_only(drops[0]) and getattr(fa, "sw_bb", None) is not None]
+        for sb in set(head_sw):
+            for tb, lab in h.succ(sb):
+                if h.dominates(tb, drops[0]) or tb == drops[0]:
+                    if set(h.exits()) & h.reachable_from(tb, avoid=(drops[0],)):
+                        ok = False
     ck.ob(R, "handle:HEAD-without-body", ok, h.loc(None), "" if ok else "the HEAD arm does not (only) drop the response body while keeping Content-Type/Content-Length (drops: %d, header mutations: %d)" % (len(drops), len(hdr_mut)), how="res.content = Content::None; headers kept")
     # 2. gen_openapi_doc (openapi builds only)
     gs = prog.find(r"^ohkami::router::r#final::Router::gen_openapi_doc$")
